@@ -95,7 +95,7 @@ type Property struct {
 	QuickRuns, ThoroughRuns int
 	QuickWall, ThoroughWall time.Duration
 	// Enumerate, if set, yields the plans of a finite space instead of Gen.
-	Enumerate func(tier string) []*Plan
+	Enumerate func(tier string, seed uint64) []*Plan
 }
 
 var registry = map[string]*Property{}
@@ -261,7 +261,7 @@ func Worker(prop *Property, tier string, seed uint64, idx, of int, w *bufio.Writ
 	start := time.Now()
 	var enumerated []*Plan
 	if prop.Enumerate != nil {
-		enumerated = prop.Enumerate(tier)
+		enumerated = prop.Enumerate(tier, seed)
 		maxRuns = len(enumerated)
 	}
 	enc := json.NewEncoder(w)
@@ -712,7 +712,10 @@ func Check(prop *Property, tier string, seed uint64, workers int, verifDir strin
 		"components":          prop.Components,
 		"workers":             workers,
 		"known_findings_hit":  known,
-		"exhaustive":          prop.Enumerate != nil && violations == 0 && toolErr == 0,
+		"exhaustive":          prop.Enumerate != nil && violations == 0 && toolErr == 0 && runs == len(prop.Enumerate(tier, seed)),
+	}
+	if prop.Enumerate != nil {
+		cov["enumerated_space"] = len(prop.Enumerate(tier, seed))
 	}
 	ev := &Evidence{
 		PropertyID:  prop.ID,
